@@ -1697,6 +1697,9 @@ def _parse_function(
     child_ctx["var_types"] = dict(ctx.get("var_types", {}))
     child_ctx["var_declared"] = set(ctx.get("var_declared", set()))
     child_ctx["_base_declared"] = set(child_ctx["var_declared"])
+    # a function's locals are hoisted with their own types, not with the type a
+    # same-named variable was hoisted with elsewhere
+    child_ctx["_promotion_cpp_types"] = {}
     child_ctx["globals"] = ctx.setdefault("globals", [])
     child_ctx["helpers"] = helpers_set
     child_ctx["vars"].setdefault("_helpers", helpers_set)
